@@ -63,3 +63,9 @@ impl From<LinesCodecError> for HErr {
     #[verifier::external_body]
     fn from(e: LinesCodecError) -> HErr { HErr { k: 0 } }
 }
+
+// `E1 + E2` with E1: String (rule R10; Verus ICE on String + &&str): opaque result, nothing in the contracts uses the text
+#[verifier::external_body]
+pub fn verif_str_plus(a: String, b: &str) -> (r: String)
+    ensures r@ == a@ + b@
+{ a + b }
